@@ -321,13 +321,24 @@ pub fn compare(a: &Content, b: &Content, typed: bool, value_text: &dyn Fn(&Val) 
                         xs.sort();
                         ys.sort();
                         if xs != ys {
-                            md.push(format!("{}|leaf-modes", kind));
+                            // which kind of leaf differs: the text selectors or the leaves that select an annotation's text
+                            let only = |a: &Vec<String>, b: &Vec<String>| -> Vec<String> {
+                                let mut rest = b.clone();
+                                a.iter().filter(|l| match rest.iter().position(|r| r == *l) { Some(p) => { rest.remove(p); false } None => true }).cloned().collect()
+                            };
+                            let differing: Vec<String> = only(&xs, &ys).into_iter().chain(only(&ys, &xs)).collect();
+                            if differing.iter().any(|l| l.starts_with("Text")) {
+                                md.push(format!("TextSelector|leaf-modes in {}", kind));
+                            }
+                            if differing.iter().any(|l| !l.starts_with("Text")) {
+                                md.push(format!("{}|leaf-modes", kind));
+                            }
                         }
                     }
                     _ => mode_diffs(&x.target, &y.target, &mut md),
                 }
                 for d in md {
-                    v.push(("offset.mode".to_string(), format!("{}|{}|{}", if x.ranged || y.ranged { "ranged" } else { "plain" }, kind, d.split('|').next().unwrap_or("")), format!("annotation {}: alignment changed ({}): {:?} became {:?}", i, d, x.target, y.target)));
+                    v.push(("offset.mode".to_string(), format!("{}|{}|{}", if !(x.ranged || y.ranged) { "plain" } else if d.starts_with("TextSelector|") { "ranged-text" } else { "ranged" }, kind, d.split('|').next().unwrap_or("")), format!("annotation {}: alignment changed ({}): {:?} became {:?}", i, d, x.target, y.target)));
                 }
             }
             if x.data != y.data {
